@@ -1,6 +1,6 @@
 #!/bin/bash
 # thorough tier of every check, one after the other (hours)
-for p in C01 C02 C03 C04 C05 C06 C07 C08 C09 C10 C11 C12 C13 C14 C15 C16 C17 C18 C19 C20 X02 X03 X04; do
+for p in C01 C02 C03 C04 C05 C06 C07 C08 C09 C10 C11 C12 C13 C14 C15 C16 C17 C18 C19 C20 X02 X03 X04 X05; do
   t0=$(date +%s)
   out=$(./check $p --tier thorough 2>&1 | grep -v "^WARN")
   echo "$(echo "$out" | tail -1 | cut -c1-170) [$(( $(date +%s) - t0 )) s]"
